@@ -816,41 +816,117 @@ func c01SendHeader(r *Run, x *codecX, send *FuncInfo) {
 	} else {
 		var kinds []string
 		okShape := true
-		ast.Inspect(send.Decl.Body, func(n ast.Node) bool {
-			as, ok := n.(*ast.AssignStmt)
-			if !ok || len(as.Lhs) != 1 || len(as.Rhs) != 1 || objOf(info, as.Lhs[0]) != obj {
-				return true
-			}
-			if as.Tok != token.DEFINE && as.Tok != token.ASSIGN && as.Tok != token.ADD_ASSIGN {
-				okShape = false
-				return true
-			}
-			for _, t := range flattenSum(as.Rhs[0]) {
-				t = unparen(t)
-				if as.Tok == token.ASSIGN && objOf(info, t) == obj {
-					continue // x = x + ...
+		// The terms that make up the variable, followed through private helpers that compute
+		// part of it (vecs, total := sendVectors(hdr[:], buf.data); vecs, total =
+		// appendPayloadVector(vecs, total, p)): sub maps a helper's parameters to the caller's
+		// argument expressions.
+		type subst map[types.Object]ast.Expr
+		through := func(e ast.Expr, sub subst) ast.Expr {
+			e = unparen(e)
+			for i := 0; i < 4; i++ {
+				m, ok := sub[objOf(info, e)]
+				if !ok || objOf(info, e) == nil {
+					break
 				}
-				kind := "?" + r.L.str(t)
-				if c, isC := constInt(info, t); isC && c == 7 {
-					kind = "header"
-				}
-				// uint32(len(X))
-				if conv, ok := t.(*ast.CallExpr); ok && len(conv.Args) == 1 && info.Types[conv.Fun].IsType() {
-					if ln, ok := unparen(conv.Args[0]).(*ast.CallExpr); ok && len(ln.Args) == 1 {
-						if id, ok := ln.Fun.(*ast.Ident); ok && id.Name == "len" {
-							switch {
-							case encBuf != "" && res.str(ln.Args[0]) == encBuf+".data":
-								kind = "fixed"
-							case isPayload(ln.Args[0]):
-								kind = "payload"
-							}
+				e = unparen(m)
+			}
+			return e
+		}
+		classify := func(t ast.Expr, sub subst) string {
+			t = unparen(t)
+			kind := "?" + r.L.str(t)
+			if c, isC := constInt(info, t); isC && c == 7 {
+				kind = "header"
+			}
+			// uint32(len(X))
+			if conv, ok := t.(*ast.CallExpr); ok && len(conv.Args) == 1 && info.Types[conv.Fun].IsType() {
+				if ln, ok := unparen(conv.Args[0]).(*ast.CallExpr); ok && len(ln.Args) == 1 {
+					if id, ok := ln.Fun.(*ast.Ident); ok && id.Name == "len" {
+						x := through(ln.Args[0], sub)
+						switch {
+						case encBuf != "" && res.str(x) == encBuf+".data":
+							kind = "fixed"
+						case isPayload(x):
+							kind = "payload"
 						}
 					}
 				}
-				kinds = append(kinds, kind)
 			}
-			return true
-		})
+			return kind
+		}
+		var collect func(fn *ast.FuncDecl, v types.Object, sub subst, depth int)
+		collect = func(fn *ast.FuncDecl, v types.Object, sub subst, depth int) {
+			if depth > 3 {
+				okShape = false
+				return
+			}
+			ast.Inspect(fn.Body, func(n ast.Node) bool {
+				as, ok := n.(*ast.AssignStmt)
+				if !ok {
+					return true
+				}
+				for li, lhs := range as.Lhs {
+					if objOf(info, lhs) != v {
+						continue
+					}
+					if as.Tok != token.DEFINE && as.Tok != token.ASSIGN && as.Tok != token.ADD_ASSIGN {
+						okShape = false
+						continue
+					}
+					if len(as.Lhs) == len(as.Rhs) {
+						for _, t := range flattenSum(as.Rhs[li]) {
+							t = unparen(t)
+							if as.Tok == token.ASSIGN && objOf(info, t) == v {
+								continue // x = x + ...
+							}
+							kinds = append(kinds, classify(t, sub))
+						}
+						continue
+					}
+					// a, v := helper(...): result #li of the helper
+					call, isCall := unparen(as.Rhs[0]).(*ast.CallExpr)
+					tf := r.L.FuncOf(callee(info, call))
+					if !isCall || len(as.Rhs) != 1 || tf == nil || tf.Decl.Body == nil {
+						okShape = false
+						continue
+					}
+					hsub := subst{}
+					idx := 0
+					for _, f := range tf.Decl.Type.Params.List {
+						for _, nm := range f.Names {
+							if idx < len(call.Args) {
+								hsub[info.Defs[nm]] = through(call.Args[idx], sub)
+							}
+							idx++
+						}
+					}
+					ast.Inspect(tf.Decl.Body, func(m ast.Node) bool {
+						ret, isRet := m.(*ast.ReturnStmt)
+						if !isRet || li >= len(ret.Results) {
+							return true
+						}
+						e := unparen(ret.Results[li])
+						if ro, isVar := objOf(info, e).(*types.Var); isVar && ro.Parent() != ro.Pkg().Scope() {
+							// a variable of the helper: its own assignments, plus - for a parameter -
+							// the value it came in with (unless that is the variable itself)
+							collect(tf.Decl, ro, hsub, depth+1)
+							if in, isParam := hsub[ro]; isParam && objOf(info, in) != v {
+								for _, t := range flattenSum(in) {
+									kinds = append(kinds, classify(t, sub))
+								}
+							}
+							return true
+						}
+						for _, t := range flattenSum(e) {
+							kinds = append(kinds, classify(t, hsub))
+						}
+						return true
+					})
+				}
+				return true
+			})
+		}
+		collect(send.Decl, obj, subst{}, 0)
 		sort.Strings(kinds)
 		got := strings.Join(kinds, " + ")
 		r.check(okShape && got == "fixed + header + payload", "r7", "send total length", send.Decl.Pos(),
@@ -864,14 +940,14 @@ func c01SendHeader(r *Run, x *codecX, send *FuncInfo) {
 			writeTo++
 		}
 		id, ok := s.Call.Fun.(*ast.Ident)
-		if !ok || id.Name != "append" || len(s.Call.Args) < 2 || len(s.Inl) > 0 {
+		if !ok || id.Name != "append" || len(s.Call.Args) < 2 {
 			continue
 		}
 		if t := info.TypeOf(s.Call.Args[0]); t == nil || !strings.HasSuffix(t.String(), "net.Buffers") {
 			continue
 		}
-		for _, a := range s.Call.Args[1:] {
-			a = unparen(a)
+		for ai := range s.Call.Args[1:] {
+			a := unparen(s.argExpr(info, ai+1)) // a helper's parameter stands for what it was called with
 			kind := "?" + r.L.str(a)
 			if sl, ok := a.(*ast.SliceExpr); ok && sl.Low == nil && sl.High == nil && objOf(info, sl.X) == hdrArr && hdrArr != nil {
 				kind = "header"
